@@ -42,6 +42,23 @@ def lemmas():
       z3.And(MR.holds(a, r), MR.holds(b, r), MR.key_le(a, b), z3.Not(MR.key_le(b, a))))
     #  - below the first range nothing contains r
     L('below-every-start-nothing-contains-r', [r < MR.start(a)], z3.Not(MR.holds(a, r)))
+    # listing order: the range selected for r has the same (start, marker) whatever order the ranges were listed in. Two lists with the same
+    # members, each in canonical order (what the constructor contract establishes for any listing), each with its selected range
+    # (_range_search's postcondition). Composition: 'index-of-member' gives every member an index; at that index the index-form clauses of the
+    # search postcondition give the membership form ('bridge' lemmas); the membership forms of two lists with equal member sets agree ('set' lemma)
+    rt = z3.Const('rt', MR.RDList); nn = z3.Bool('none'); sel_ = z3.Const('sel', MR.RD); e = z3.Const('e', MR.RD); i = z3.Int('i')
+    mem = lambda q: z3.Contains(rt, z3.Unit(q))
+    H = MR.selected(rt, r, nn, sel_); at = [0 <= i, i < z3.Length(rt), rt[i] == e]
+    L('listing-order/bridge/none-means-no-member-contains-r', H + at + [nn], z3.Not(MR.holds(e, r)))
+    L('listing-order/bridge/selected-is-last-member-containing-r', H + at + [z3.Not(nn), MR.holds(e, r)], MR.key_le(e, sel_))
+    L('listing-order/bridge/selected-is-a-member', H + [z3.Not(nn)], mem(sel_))
+    L('listing-order/index-of-member', [mem(e)], z3.Exists([i], z3.And(0 <= i, i < z3.Length(rt), rt[i] == e)))
+    m1 = z3.Function('member_of_listing_1', MR.RD, z3.BoolSort()); m2 = z3.Function('member_of_listing_2', MR.RD, z3.BoolSort())
+    n1, n2 = z3.Bools('none1 none2'); s1, s2 = z3.Consts('sel1 sel2', MR.RD); x = z3.Const('x', MR.RD)
+    def sel(m, n_, s_): return [z3.ForAll([x], z3.Implies(z3.And(n_, m(x)), z3.Not(MR.holds(x, r)))), z3.Implies(z3.Not(n_), z3.And(MR.holds(s_, r), m(s_))),
+                                z3.ForAll([x], z3.Implies(z3.And(z3.Not(n_), m(x), MR.holds(x, r)), MR.key_le(x, s_)))]
+    L('listing-order/selection-independent-of-listing-order', [z3.ForAll([x], m1(x) == m2(x)), mk(s1), mk(s2)] + sel(m1, n1, s1) + sel(m2, n2, s2),
+      z3.And(n1 == n2, z3.Implies(z3.Not(n1), z3.And(MR.start(s1) == MR.start(s2), MR.rtype(s1) == MR.rtype(s2)))))
     S = B.source_shape
     # the setter (sort with the comparator), Potential_Form_Builder._make_multi_range_tuple and .create_potential_function are under Engine A contracts
     from pyvc.extract import Module
@@ -76,7 +93,7 @@ MUTANTS = [
 ]
 ASSUMPTIONS = ['A4: list.sort with a consistent comparator (cmp_to_key) yields the canonical order assumed by _range_search (start ascending, ">=" before ">" at equal start); the comparator is verified to be that order',
                'reading of the tie clause (DESIGN §4 C08): at r equal to a shared start the inclusive range is selected, beyond it the exclusive one — the only reading under which the pinned test and the statement agree',
-               'order independence needs pairwise distinct (marker, start) pairs: with identical pairs the stable sort keeps listing order',
+               'order independence is proved for the (start, marker) of the selected range (lemmas listing-order/*); which of several ranges with an identical (marker, start) pair is selected depends on listing order (stable sort): the statement says nothing about such duplicates',
                'A1: comparisons r == start are on the floats the code compares (no arithmetic precedes them)']
 NOTES = ['pyparsing grammar acceptance (which texts yield a range_start node) is A6; the tree-to-tuple descent is checked on normalised source']
 
